@@ -4,7 +4,10 @@ import concurrent.futures as cf
 import json
 import os
 import random
+import sys
 import vf
+
+sys.path.insert(0, os.path.dirname(os.path.abspath(__file__)))
 
 CONFIGS = {
     "h1-connect": "features:\n  versions: [HTTP_VERSION_1]\n  protocols: [PROTOCOL_CONNECT]\n  codecs: [CODEC_PROTO, CODEC_JSON]\n  compressions: [COMPRESSION_IDENTITY, COMPRESSION_GZIP]\n  supportsTls: false\n  supportsH2c: false\n",
@@ -39,6 +42,30 @@ def validate_one(ctx, k, rec):
         else:
             hi = mid
     return dict(line=hi, event=lines[hi - 1], before=lines[max(1, hi - 4):hi - 1])
+
+
+def client_answers(ctx):
+    """Runner.tla takes the client side as an assumption (ClientAnswers: every request handed to the client gets
+    its callback, exactly once, whatever the client does - otherwise a batch never returns, its slot is never
+    released and the run does not terminate).  That assumption is ClientMux.tla's ExactlyOnceAtEnd /
+    NoStuckCallback; it is discharged here on the real multiplexer with a reduced budget of C10's schedules."""
+    import c10
+    total = 1500 if ctx.quick else 6000
+    seen, scns = set(), []
+    for cfg, share in c10.GEN:
+        g = ctx.tlc("Gen_ClientMux", cfg, workers=1, simulate="num=%d" % int(total * share), depth=300, timeout=2400)
+        for s in g.json_lines("SCN "):
+            k = json.dumps(s)
+            if k not in seen:
+                seen.add(k)
+                scns.append(s)
+    binp = ctx.go_test_bin("internal/app/connectconformance", ["c10", "peers"], race=True)
+    traces, ok, acc = c10.execute(ctx, binp, scns, "TestVerifC10Run", "Trace_ClientMux", "inproc")
+    if ctx.notes.get("unreproduced_hangs") and not ctx.violations and not ctx.known_hits:
+        h = ctx.notes["unreproduced_hangs"][0]
+        raise vf.Machinery("unreproduced hang in the client multiplexer leg: %s schedule=%s" % (h["hang"], json.dumps(h["schedule"])))
+    ctx.cov["traces_validated_against_impl"] += len(ok)
+    ctx.notes["client_answers_leg"] = dict(schedules=len(scns), accepted=len(acc))
 
 
 def run(ctx):
@@ -104,11 +131,15 @@ def run(ctx):
     if todo:
         k, rec = todo[0]
         ctx.sample(dict(scenario=pick[k], plan=[(b["inst"], len(b["cases"])) for b in rec["plan"]], first_events=rec["events"][:4]))
+    if not ctx.replay:
+        client_answers(ctx)
     ctx.cov["rule"] = ("real run() in both-commands mode with the reference client and server wrapped as OS processes; scenario = config "
                        "(instance mix incl. TLS / client certs) x corpus slice (--run/--skip) x MaxServers 1..4 x client parallelism x "
                        "server-fails-to-start; every Up/Send/Stop event (synchronously sequenced, address probed by TCP connect) and the "
                        "final outcome map must be explained by Runner.tla with silent Acquire/Release; evaluations = permutations "
-                       "executed; non-trivial = distinct scenarios run. Runs execute under the race detector.")
+                       "executed; non-trivial = distinct scenarios run. Runs execute under the race detector. Runner.tla's assumption "
+                       "that the client side answers every request exactly once is discharged by a reduced run of the ClientMux "
+                       "binding (C10's schedules on the real multiplexer, Trace_ClientMux).")
     ctx.assumptions += ["the plan (selected permutations per instance, sorted instance order under --verbose) is computed with the runner's own library code; selection itself is decided by C06-C08",
                         "in-process gRPC peers and HTTP/3 are not covered by the wrappers (TCP probe)",
                         "server lifetime intervals [Up, Stop] are subsets of the real lifetimes, so an overlap above MaxServers is only reported if real"]
